@@ -281,13 +281,100 @@ Definition merge_views (self base other : view) : option view :=
   Some (mk_view (normalize (map res heads ++ map (fun c => (fresh_change, 0%N) :: res c) wc_heads))
                 bm' wc').
 
+(** ** The operation DAG and [RepoLoader::merge_operations] (repo.rs:781-897) *)
+Record opnode := mk_node {
+  n_parents : list nat;      (* positions of the parent operations (smaller positions) *)
+  n_rank : N;                (* order of [OperationByEndTime] (end time, then id) *)
+  n_view : view;
+}.
+
+Definition memn (i : nat) (l : list nat) : bool := existsb (Nat.eqb i) l.
+
+Fixpoint add_new (xs acc : list nat) : list nat :=
+  match xs with
+  | [] => acc
+  | x :: t => if memn x acc then add_new t acc else add_new t (acc ++ [x])
+  end.
+
+Definition parents_at (dag : list opnode) (i : nat) : list nat :=
+  match nth_error dag i with Some n => n_parents n | None => [] end.
+
+(** Reflexive ancestors of a set of operations. *)
+Fixpoint close_anc (fuel : nat) (dag : list opnode) (s : list nat) : list nat :=
+  match fuel with
+  | O => s
+  | S f => close_anc f dag (add_new (flat_map (parents_at dag) s) s)
+  end.
+Definition op_ancestors (dag : list opnode) (s : list nat) : list nat :=
+  close_anc (length dag) dag (add_new s []).
+
+Definition rank_at (dag : list opnode) (i : nat) : N :=
+  match nth_error dag i with Some n => n_rank n | None => 0 end.
+
+Fixpoint insert_desc (dag : list opnode) (x : nat) (l : list nat) : list nat :=
+  match l with
+  | [] => [x]
+  | y :: t => if N.ltb (rank_at dag y) (rank_at dag x) then x :: l else y :: insert_desc dag x t
+  end.
+
+(** [op_walk::closest_common_ancestors]: the common ancestors that are not ancestors of
+    another common ancestor, the latest first. *)
+Definition cca (dag : list opnode) (a b : list nat) : list nat :=
+  let aa := op_ancestors dag a in
+  let ab := op_ancestors dag b in
+  let common := filter (fun i => memn i aa && memn i ab) (seq 0 (length dag)) in
+  let closest := filter (fun c => negb (existsb (fun d => negb (Nat.eqb d c)
+                                                      && memn c (op_ancestors dag [d])) common))
+                        common in
+  fold_right (insert_desc dag) [] closest.
+
+Inductive mres := MOk (v : view) | MSkip | MBad.
+
+(** The transaction starts at the first operation; every further operation is merged in
+    relative to the closest common ancestors of EVERYTHING merged so far and itself; several
+    such ancestors are first merged among themselves, the same way. *)
+Fixpoint merge_ops (fuel : nat) (dag : list opnode) (ops : list nat) : mres :=
+  match fuel with
+  | O => MBad
+  | S f =>
+      match ops with
+      | [] => MBad
+      | o0 :: rest =>
+          match nth_error dag o0 with
+          | None => MBad
+          | Some n0 =>
+              (fix go (cur : view) (merged : list nat) (rest : list nat) : mres :=
+                 match rest with
+                 | [] => MOk cur
+                 | other :: rest' =>
+                     match nth_error dag other with
+                     | None => MBad
+                     | Some no =>
+                         let base :=
+                             match cca dag merged [other] with
+                             | [] => MBad
+                             | [a] => match nth_error dag a with Some na => MOk (n_view na) | None => MBad end
+                             | ancs => merge_ops f dag ancs
+                             end in
+                         match base with
+                         | MOk vb =>
+                             match merge_views cur vb (n_view no) with
+                             | Some v' => go v' (merged ++ [other]) rest'
+                             | None => MSkip
+                             end
+                         | other_res => other_res
+                         end
+                     end
+                 end) (n_view n0) [o0] rest
+          end
+      end
+  end.
+
 (** ** Correspondence case *)
 Record case := mk_case {
-  c_self : view;       (* view of the operation the merge transaction starts from *)
-  c_base : view;       (* common ancestor operation *)
-  c_other : view;      (* the operation merged in *)
-  c_other2 : option view;  (* a third concurrent operation, merged in after [c_other] *)
-  c_merged : view;     (* impl: view of the reconciling operation *)
+  c_dag : list opnode;     (* every operation involved, parents before children *)
+  c_heads : list nat;      (* the operations handed to merge_operations, in that order *)
+  c_merged : view;         (* impl: view of the reconciling operation *)
   c_failed : bool;
 }.
 
@@ -370,43 +457,122 @@ Definition wc_ok (self base other merged : view) (name : N) : bool :=
   | _, _ => false
   end.
 
+(** ** Checks over the whole operation DAG *)
+Definition view_at (dag : list opnode) (i : nat) : view :=
+  match nth_error dag i with Some n => n_view n | None => mk_view [] [] [] end.
+
+(** A commit some ancestor operation of head [h] still showed and [h] no longer shows:
+    rewritten or abandoned on that line of history. *)
+Definition removed_on_line (dag : list opnode) (h : nat) (c : commit) : bool :=
+  negb (visible (v_heads (view_at dag h)) c)
+  && existsb (fun a => visible (v_heads (view_at dag a)) c) (op_ancestors dag [h]).
+
+(** The change was rewritten divergently: at least two other visible commits carry it
+    (descendants of a divergently rewritten commit are deliberately left in place). *)
+Definition divergent_in (merged : view) (c : commit) : bool :=
+  (2 <=? length (filter (fun x => N.eqb (change_of x) (change_of c) && negb (commit_eqb x c))
+                        (ancs (v_heads merged))))%nat.
+
+(** D1: a commit removed on the line of some head must not re-appear (unless its change
+    became divergent). *)
+Definition dag_removed_hidden (dag : list opnode) (heads : list nat) (merged : view) : bool :=
+  forallb (fun h =>
+     forallb (fun a =>
+        forallb (fun c => visible (v_heads (view_at dag h)) c
+                          || negb (visible (v_heads merged) c) || divergent_in merged c)
+                (ancs (v_heads (view_at dag a))))
+       (op_ancestors dag [h])) heads.
+
+(** D2: a change a head shows is still represented, unless some line of history dropped it. *)
+Definition dag_kept_changes (dag : list opnode) (heads : list nat) (merged : view) : bool :=
+  forallb (fun h =>
+     forallb (fun c =>
+        existsb (N.eqb (change_of c)) (changes_of (v_heads merged))
+        || existsb (fun h' =>
+             negb (existsb (N.eqb (change_of c)) (changes_of (v_heads (view_at dag h'))))
+             && existsb (fun a => existsb (N.eqb (change_of c)) (changes_of (v_heads (view_at dag a))))
+                        (op_ancestors dag [h'])) heads)
+       (ancs (v_heads (view_at dag h)))) heads.
+
+(** D3 (refs): if one head [w] is such that every other head [h] has, with [w], exactly one
+    closest common ancestor and shows the same value as that ancestor (so only [w]'s line
+    changed the ref since the true fork points), the reconciled value is [w]'s up to rewrites:
+    same number of terms (in particular NOT a new conflict) and the same change ids. *)
+Definition only_changer {V} (eqb : V -> V -> bool) (commits_of : V -> list commit)
+  (dag : list opnode) (heads : list nat) (value : view -> V) (w : nat) : bool :=
+  (* the new value's commits were not rewritten or abandoned on another line either *)
+  forallb (fun c => forallb (fun h' => Nat.eqb h' w || negb (removed_on_line dag h' c)) heads)
+          (commits_of (value (view_at dag w)))
+  &&
+  forallb (fun h => Nat.eqb h w ||
+             match cca dag [h] [w] with
+             | [a] =>
+                 eqb (value (view_at dag h)) (value (view_at dag a))
+                 (* and no other line rewrote or abandoned the commits the old value names
+                    (a rebased ref counts as changed by that line) *)
+                 && forallb (fun c => forallb (fun h' => Nat.eqb h' w || negb (removed_on_line dag h' c)) heads)
+                            (commits_of (value (view_at dag a)))
+             | _ => false
+             end) heads.
+
+Definition target_commits (t : target) : list commit :=
+  flat_map (fun a => match a with Some c => [c] | None => [] end) t.
+
+Definition bookmark_dag_ok (dag : list opnode) (heads : list nat) (merged : view) (name : N) : bool :=
+  let value v := target_of (lookup_n (v_bookmarks v) name) in
+  let r := value merged in
+  let gone c := negb (existsb (N.eqb c) (changes_of (v_heads merged))) in
+  forallb (fun w =>
+     negb (only_changer target_eqb target_commits dag heads value w)
+     || (let t := value (view_at dag w) in
+         (length r <=? length t)%nat
+         && (negb (target_eqb t absent) || target_eqb r absent)
+         && forallb (fun c => existsb (N.eqb c) (target_changes r) || gone c) (target_changes t)))
+    heads.
+
+Definition wc_dag_ok (dag : list opnode) (heads : list nat) (merged : view) (name : N) : bool :=
+  let value v := lookup_n (v_wc v) name in
+  forallb (fun w =>
+     negb (only_changer (option_eqb commit_eqb) (fun o => match o with Some c => [c] | None => [] end) dag heads value w)
+     || match value (view_at dag w), value merged with
+        | None, None => true
+        | Some e, Some x => N.eqb (change_of x) (change_of e) || N.eqb (change_of x) fresh_change
+        | _, _ => false
+        end)
+    heads.
+
 Definition okb (c : case) : bool :=
   negb (c_failed c) &&
-  (let s := c_self c in let b := c_base c in let o := c_other c in let r := c_merged c in
-   match c_other2 c with
-   | None =>
-       kept_changes s b o r && kept_changes o b s r
-       && removed_hidden s b r && removed_hidden o b r
-       && forallb (bookmark_ok s b o r)
-            (union_keys (map fst (v_bookmarks s)) (union_keys (map fst (v_bookmarks b))
-               (union_keys (map fst (v_bookmarks o)) (map fst (v_bookmarks r)))))
-       && forallb (wc_ok s b o r)
-            (union_keys (map fst (v_wc s)) (union_keys (map fst (v_wc b))
-               (union_keys (map fst (v_wc o)) (map fst (v_wc r)))))
-   | Some o2 =>
-       (* three sides: what each side removed stays hidden; a change a side has is still
-          represented unless no other side has it any more *)
-       removed_hidden s b r && removed_hidden o b r && removed_hidden o2 b r
-       && forallb (fun side =>
-             forallb (fun c =>
-                existsb (N.eqb (change_of c)) (changes_of (v_heads r))
-                || (visible (v_heads b) c
-                    && negb (forallb (fun other => existsb (N.eqb (change_of c)) (changes_of (v_heads other)))
-                                     [s; o; o2])))
-               (ancs (v_heads side))) [s; o; o2]
-   end).
+  (let dag := c_dag c in let heads := c_heads c in let r := c_merged c in
+   let names (f : view -> list N) := fold_right union_keys (f r) (map (fun h => f (view_at dag h)) heads) in
+   dag_removed_hidden dag heads r
+   && dag_kept_changes dag heads r
+   && forallb (bookmark_dag_ok dag heads r) (names (fun v => map fst (v_bookmarks v)))
+   && forallb (wc_dag_ok dag heads r) (names (fun v => map fst (v_wc v)))
+   && match heads with
+      | [i; j] =>
+          (* two operations with one closest common ancestor: the pairwise rules as well *)
+          match cca dag [i] [j] with
+          | [bi] =>
+              let s := view_at dag i in let b := view_at dag bi in let o := view_at dag j in
+              kept_changes s b o r && kept_changes o b s r
+              && removed_hidden s b r && removed_hidden o b r
+              && forallb (bookmark_ok s b o r)
+                   (union_keys (map fst (v_bookmarks s)) (union_keys (map fst (v_bookmarks b))
+                      (union_keys (map fst (v_bookmarks o)) (map fst (v_bookmarks r)))))
+              && forallb (wc_ok s b o r)
+                   (union_keys (map fst (v_wc s)) (union_keys (map fst (v_wc b))
+                      (union_keys (map fst (v_wc o)) (map fst (v_wc r)))))
+          | _ => true
+          end
+      | _ => true
+      end).
 
 Definition check_case (c : case) : N :=
   let corr := negb (c_failed c) &&
-              match merge_views (c_self c) (c_base c) (c_other c) with
-              | Some v =>
-                  match c_other2 c with
-                  | None => view_eqb v (c_merged c)
-                  | Some o2 => match merge_views v (c_base c) o2 with
-                               | Some v2 => view_eqb v2 (c_merged c)
-                               | None => true
-                               end
-                  end
-              | None => true          (* divergent rewrites: not modelled, checker only *)
+              match merge_ops (S (length (c_dag c))) (c_dag c) (c_heads c) with
+              | MOk v => view_eqb v (c_merged c)
+              | MSkip => true          (* divergent rewrites: not modelled, checker only *)
+              | MBad => false
               end in
   verdict corr (okb c) false 1.
